@@ -822,17 +822,28 @@ func run(e *core.Env) {
 			if vm != nil && M.Peering.GetLink(V.IP) != nil && H.Peering.GetLink(V.IP) != nil {
 				vm.StallWrites(true)
 				w.what = "a flood of frames for a peer that has stopped reading"
+				// regular traffic or - the smaller queue - priority frames (pings, control)
+				floodType := frame.NetworkTraffic
+				if tp.Chance(1, 2) {
+					floodType = []frame.MessageType{frame.RouterPing, frame.RouterCtrl, frame.RouterHopPing}[tp.Intn(3)]
+					w.what = "a flood of priority frames for a peer that has stopped reading"
+					e.Probe("priority_flood_towards_a_peer_that_does_not_read")
+				}
 				for k := 0; k < 1040; k++ {
 					// (the frames come in over H's link: a frame is never routed back over the
 					// link it arrived on. Who sends them does not matter to V: transit frames are
 					// forwarded without a look at their seal.)
-					f, err := H.Inst.Builder.NewFrameV1(H.IP, M.IP, frame.NetworkTraffic, nil, []byte("traffic frame for a peer that does not read ........"), nil)
+					f, err := H.Inst.Builder.NewFrameV1(H.IP, M.IP, floodType, nil, []byte("traffic frame for a peer that does not read ........"), nil)
 					if err != nil {
 						break
 					}
 					f.SetTTL(20)
 					if l := H.Peering.GetLink(V.IP); l != nil {
-						_ = l.Send(f)
+						if floodType == frame.NetworkTraffic {
+							_ = l.Send(f)
+						} else {
+							_ = l.SendPriority(f)
+						}
 					}
 					// one at a time, so that V's workers are free for each (a router sheds what
 					// arrives while its workers are busy)
@@ -850,7 +861,7 @@ func run(e *core.Env) {
 					case <-notify:
 						e.Probe("router_serves_others_while_one_peer_does_not_read")
 					default:
-						e.Fail("router-stalled", "while M does not read, a flood of frames that V has to send to M makes V deaf: the honest peer's ping to V got no answer within 5 s")
+						e.Fail("router-stalled", "while M does not read, %s makes V deaf: the honest peer's ping to V got no answer within 5 s", w.what)
 					}
 				}
 				vm.StallWrites(false)
